@@ -83,7 +83,7 @@ def run(ctx, crates):
             ctx.anchor_missing(rid, fsuffix)
             continue
         if f.path not in cache:
-            cache[f.path] = validation.checks(f)
+            cache[f.path] = validation.checks_deep(ctx.prog, f)
             ctx.seen(f)
         cs = cache[f.path]
         have = [c for c in cs if validation.norm(c["subject"], c["op"], c["other"]) == cond]
